@@ -30,6 +30,36 @@ func vfWithCk(raw []byte, ck string) []byte {
 	return b
 }
 
+// vfRewriteEdmid returns a copy of an INIT / INIT-ACK packet whose Zero Checksum Acceptable parameter (0x8001) names
+// the given error detection method, with a correct CRC32c. nil if the packet has no such parameter.
+func vfRewriteEdmid(raw []byte, edmid uint32) []byte {
+	b := make([]byte, len(raw))
+	copy(b, raw)
+	if len(b) < 32 || (b[12] != 1 && b[12] != 2) {
+		return nil
+	}
+	end := 12 + int(binary.BigEndian.Uint16(b[14:]))
+	if end > len(b) {
+		return nil
+	}
+	found := false
+	for off := 32; off+4 <= end; {
+		typ, l := binary.BigEndian.Uint16(b[off:]), int(binary.BigEndian.Uint16(b[off+2:]))
+		if l < 4 || off+l > end {
+			break
+		}
+		if typ == 0x8001 && l >= 8 {
+			binary.BigEndian.PutUint32(b[off+4:], edmid)
+			found = true
+		}
+		off += (l + 3) &^ 3
+	}
+	if !found {
+		return nil
+	}
+	return vfWithCk(b, "ok")
+}
+
 func init() {
 	vfModes["cksum"] = func(t *testing.T) {
 		seed := int64(vfEnvInt("VF_SEED", 1))
@@ -41,6 +71,53 @@ func init() {
 		}
 		defer tr.close()
 		k := 0
+		// 0. "only after the peer advertised acceptance WITH THE DTLS ERROR-DETECTION METHOD": both sides enable zero
+		//    checksums, but the parameter of one / both is rewritten in transit to name another method (2, 0x01000000,
+		//    0): whoever received that must keep emitting correct CRC32c
+		for ei, edmid := range []uint32{2, 0x01000000, 0} {
+			for _, il := range []bool{false, true} {
+				for who := 1; who <= 3; who++ {
+					k++
+					if k%nshards != shard {
+						continue
+					}
+					label := fmt.Sprintf("cksum-edmid%d-who%d-il%v#%d", ei, who, il, seed)
+					vfBubble(t, label, func() {
+						w := vfNewWorld(vfWorldOpt{Label: label, Trace: tr, A: vfEpCfg{InitTSN: 70 + uint32(k), Tag: 0xA8, IL: il, ZC: true, ZCForeign: who&1 != 0},
+							B: vfEpCfg{InitTSN: 90 + uint32(k), Tag: 0xB8, IL: il, ZC: true, ZCForeign: who&2 != 0, Server: true}})
+						w.cfgEvent()
+						w.start(1)
+						w.start(0)
+						w.quiesce()
+						for i := 0; i < 12; i++ {
+							p := w.pending(-1)
+							if len(p) == 0 {
+								break
+							}
+							g := p[0]
+							kd := vfFirstKind(g.raw)
+							if (kd == "init" && who&1 != 0) || (kd == "initack" && who&2 != 0) {
+								if rw := vfRewriteEdmid(g.raw, edmid); rw != nil {
+									w.drop(g.id)
+									w.inject(1-g.from, rw, "edmid-rewritten", true)
+									continue
+								}
+							}
+							w.deliver(g.id)
+						}
+						w.open(0, 1, 51)
+						w.open(1, 2, 51)
+						w.write(0, 1, 100, 51)
+						w.write(1, 2, 3000, 53)
+						w.heal(10 * time.Second)
+						w.snapAll = true
+						w.quiesce()
+						w.tr.emit(map[string]any{"ev": "expect", "drained": true, "t": w.now()})
+						w.finish(true)
+					})
+				}
+			}
+		}
 		for opt := 0; opt < 4; opt++ {
 			for _, il := range []bool{false, true} {
 				for variant := 0; variant < 3; variant++ {
